@@ -61,7 +61,11 @@
 (*    amount (each is within Eps n_tot of the unique minimiser along every *)
 (*    basis reaction).                                                     *)
 (*  AtomsConserved: 1e-6 of the largest term of the element sum (Dec, one  *)
-(*    Mul and <= 12 Adds per side).  FractionsSumToOne 1e-7.               *)
+(*    Mul and <= 12 Adds per side), or, when an element is present only in *)
+(*    traces next to others (feed 1e-12 beside 2000), 1e-9 of the LARGEST  *)
+(*    element total: the solver closes the linear balances to rounding     *)
+(*    error relative to the size of its variables (observed 2e-17 beside   *)
+(*    4000), not relative to each balance.  FractionsSumToOne 1e-7.        *)
 (*                                                                         *)
 (* DEGENERATE NETWORKS.  When a proposed integer combination c of the      *)
 (* element balances verifies EqLin!DependentElements (redundant balances)  *)
@@ -84,6 +88,7 @@ BarPerAtm == <<101325, -5>>
 Tau == <<1, -6>>          \* trace threshold (mole fraction)
 Eps == <<1, -2>>          \* NearMinimum displacement (fraction of n_tot)
 KFtol == <<1, -12>>       \* K * ftol = 100 * 1e-14
+AbsFloor == <<1, -9>>     \* AtomsConserved: absolute floor, fraction of the largest element total
 Keep == <<1, -3>>         \* a consumed species must keep this fraction of its amount
 
 Range(s) == {s[i] : i \in 1..Len(s)}
@@ -171,22 +176,28 @@ OrderClause(e, cls) ==
    IF e.key \in DOMAIN st.base
    THEN LET b == st.base[e.key]
             tol == Mul(I(2), Mul(Eps, DMax(e.ntot, b.ntot)))
-        IN IF \A i \in 1..Len(e.n) : Le(DAbs(Sub(e.n[i], b.n[i])), tol) THEN {} ELSE {"OrderIndependent" \o cls}
+        IN IF \A i \in 1..Len(e.n) : Le(DAbs(Sub(e.n[i], b.n[i])), tol) THEN {} ELSE {(IF e.again THEN "HistoryIndependent" ELSE "OrderIndependent") \o cls}
    ELSE {}
 
 BasicClauses(e) ==
    (IF \A i \in 1..Len(e.n) : e.n[i][1] >= 0 /\ e.frac[i][1] >= 0 THEN {} ELSE {"NonNegative"})
    \cup (IF Close(SumSeq(e.frac), One, 7) THEN {} ELSE {"FractionsSumToOne"})
-   \cup (IF Len(e.n) = Len(st.E) /\ \A j \in 1..NEl(st.E) : ElemSumOK(e.n, st.E, j, st.tot[j])
+   \cup (IF Len(e.n) = Len(st.E) /\ \A j \in 1..NEl(st.E) :
+               \/ ElemSumOK(e.n, st.E, j, st.tot[j])
+               \/ Le(DAbs(Sub(Dot(e.n, ColD(st.E, j)), st.tot[j])), Mul(AbsFloor, MaxSeq(st.tot)))
          THEN {} ELSE {"AtomsConserved"})
+EchoClauses(e) ==
+   (IF e.echoT = e.T /\ e.echoP = e.P THEN {} ELSE {"ConditionsEchoed"})
+   \cup (IF e.listed THEN {} ELSE {"SpeciesListed"})
 CompositionClauses(e) ==
    IF ~e.finite THEN {"Finite"}
    ELSE IF ~e.pos THEN      \* an amount <= 0: no logarithms, only the basic clauses
       (IF \E i \in 1..Len(e.n) : e.n[i][1] <= 0 THEN {} ELSE {"WITNESS"}) \cup BasicClauses(e)
+      \cup EchoClauses(e)
    ELSE IF ~(Positive(e) /\ WitnessOK(e)) THEN {"WITNESS"}
    ELSE LET cls == Class(e)
             near == [j \in 1..Len(e.B) |-> NearAt(e.B[j], e, e.nm[j])]
-        IN BasicClauses(e)
+        IN BasicClauses(e) \cup EchoClauses(e)
            \cup (IF \A i \in 1..Len(e.n) : Close(Mul(e.frac[i], e.ntot), e.n[i], 6)
                  THEN {} ELSE {"FractionsAreRatios"})
            \cup (IF WellCond(e) /\ LET invmin == MaxSeq(e.inv) IN
